@@ -1197,12 +1197,14 @@ func evMustPrecede(a, b *evView, feature string) bool {
 }
 
 // evKeyBefore: third key of the published order. Memory: usage for the used-threshold strategies, request for the
-// allocatable strategy.
+// allocatable strategy. A pod without a usage sample in the agent's window counts as usage zero for ordering ("by
+// usage" implies it: nothing is known to be freed by it): it must not be taken before a candidate with known positive
+// usage; two such pods, or one of them and a pod with a zero sample, are a genuine tie.
 func evKeyBefore(a, b *evView, feature string) bool {
 	if feature == fAlloc {
 		return a.req > b.req
 	}
-	return a.fresh && b.fresh && a.usedLo > b.usedLo
+	return a.usedLo > b.usedLo // usedLo is 0 unless a fresh sample exists
 }
 
 func evKind(f string) string {
@@ -1457,7 +1459,7 @@ func (s *evSim) checkRound(now time.Time, views map[string]*evView, tasks []*evT
 			if !useful {
 				continue
 			}
-			s.fail("stops-early", evKind(t.feature), clsTimes1000, "%s\nthe round ends with %s short of its target (accumulated[%s]=%v, short in %v) although candidate %s (%s) was never tried",
+			s.fail("stops-early", evKind(t.feature), "", "%s\nthe round ends with %s short of its target (accumulated[%s]=%v, short in %v) although candidate %s (%s) was never tried",
 				hist, t.feature, t.typ, evAccStr(hi[t.typ]), short, n, evOrd(q))
 		}
 	}
@@ -1527,9 +1529,6 @@ const (
 	// a pod already evicted and still terminating contributes to a task's target but the task meets a candidate that
 	// is not evicted before it meets that pod (or never meets it: the pod is not one of the task's candidates)
 	clsPendingBehind = "pending-release-behind-candidate"
-	// a used-memory target while a pod with non-zero usage is evicted (acknowledged), or counted as already evicted and
-	// still terminating, from the candidate list of a priority-threshold task (MemoryEvict / MemoryAllocatableEvict)
-	clsTimes1000 = "usage-counted-times-1000"
 	// an allocatable task whose target names a resource other than the batch/mid ones: no pod is ever counted as
 	// releasing it
 	clsNativeTarget = "allocatable-target-on-native-resource"
@@ -1545,13 +1544,7 @@ func (s *evSim) classify(views map[string]*evView, tasks []*evTask) []string {
 			vs = append(vs, v)
 		}
 	}
-	hasUsedTarget := false
-	for _, t := range tasks {
-		if t.typ == tUsed {
-			hasUsedTarget = true
-		}
-	}
-	beEv, nothing, behind, times := false, false, false, false
+	beEv, nothing, behind := false, false, false
 	for _, t := range tasks {
 		var cands []*evView
 		for _, v := range vs {
@@ -1593,18 +1586,6 @@ func (s *evSim) classify(views map[string]*evView, tasks []*evTask) []string {
 			}
 		}
 	}
-	for _, c := range s.calls {
-		if v := views[c.pod]; v != nil && c.ret && c.feature != fBE && hasUsedTarget && v.usedHi > 0 {
-			times = true
-		}
-	}
-	for _, t := range tasks {
-		for _, v := range vs {
-			if t.feature != fBE && hasUsedTarget && v.pendPoss && v.usedHi > 0 && s.candidate(v, t.feature) >= 1 {
-				times = true // its pending release is counted from the same list entry
-			}
-		}
-	}
 	for _, t := range tasks {
 		if t.feature != fAlloc {
 			continue
@@ -1624,9 +1605,6 @@ func (s *evSim) classify(views map[string]*evView, tasks []*evTask) []string {
 	}
 	if behind {
 		out = append(out, clsPendingBehind)
-	}
-	if times {
-		out = append(out, clsTimes1000)
 	}
 	return out
 }
@@ -1663,10 +1641,27 @@ func (s *evSim) fail(oracle, detail, cls, format string, args ...any) {
 			}
 		}
 	}
+	// this violation is not explained by a recorded finding: it must not carry the history class under which a
+	// violation of the same oracle is recorded (its signature would match the finding's pattern)
 	for _, c := range s.classes {
-		s.r.Tag(c)
+		if !evRecordedFor(oracle, c) {
+			s.r.Tag(c)
+		}
 	}
 	s.r.Fail(os.Getenv("VERIF_EVICT_RENAME")+oracle, detail, format, args...)
+}
+
+// evRecordedFor: violations of oracle are a recorded finding under history class cls (known_findings.jsonl)
+func evRecordedFor(oracle, cls string) bool {
+	switch oracle {
+	case "order", "skipped-candidate":
+		return cls == clsBEEvPrio
+	case "useless-victim":
+		return cls == clsFreesNothing
+	case "evict-after-target-met":
+		return cls == clsPendingBehind || cls == clsNativeTarget
+	}
+	return false
 }
 
 func evStr(p *string) string {
